@@ -212,4 +212,30 @@ theorem unrelated_write_no_rerun {P : Prog} (hflat : Flat P) (fuel : Nat) (hfuel
       have := step_call_fresh_runs (P := P) fuel s2 f a r hfuel hs2.1 hs2.2.1 hso hs2.2.2
       exact ⟨this.1, this.2.1⟩
 
+
+/-! ## a node verified in the current epoch is served without running anything (any program) -/
+
+theorem step_call_verified_runs {P : Prog} (fuel : Nat) (hfuel : 1 ≤ fuel) (s : Storage) (f a : Nat) (r : Rev)
+    (hst : s.stack = []) (hl : alookup s.derived (nodeOf P f a) = some r) (htv : r.tv = s.epoch) :
+    (step fuel P s (.call f a)).1.runs = s.runs ∧ (step fuel P s (.call f a)).1.log = s.log ∧
+      ((step fuel P s (.call f a)).2 = .dead ∨ (step fuel P s (.call f a)).2 = .val r.val) := by
+  unfold step
+  by_cases hp : s.poisoned = true
+  · rw [if_pos hp]; exact ⟨rfl, rfl, Or.inl rfl⟩
+  · rw [if_neg hp]
+    obtain ⟨n, rfl⟩ : ∃ n, fuel = n + 1 := ⟨fuel - 1, by omega⟩
+    have hp0 : pushTop s (nodeOf P f a) =
+        { s with topCalls := s.topCalls ++ [nodeOf P f a], pushes := s.pushes ++ [nodeOf P f a] } := by
+      simp [pushTop, hst]
+    have hex : exec (n + 1) P s (nodeOf P f a) =
+        ({ s with topCalls := s.topCalls ++ [nodeOf P f a], pushes := s.pushes ++ [nodeOf P f a] }, .ok false) := by
+      show execF (upToDate (n + 1) P) s (nodeOf P f a) = _
+      unfold execF
+      rw [hp0]
+      simp only [upToDate, hl]
+      rw [if_pos htv]
+      simp [regDep, hst]
+    simp only [callVia, hex, hl]
+    simp
+
 end IsoVerif.Pico
